@@ -66,6 +66,7 @@ Proof.
       eapply ext_trans; [exact F|]. eapply ext_trans; [|apply IH]. apply ext_upd_thread.
     + eapply ext_trans; [|apply IH]. eapply ext_trans; [|apply ext_upd_thread].
       apply ext_upd. cbn. auto.
+    + apply ext_refl.
 Qed.
 
 Lemma ext_app st (ps : list proc) : ext st (mkps (procs st ++ ps) (threads st) (hlog st)).
@@ -131,8 +132,7 @@ Proof.
   induction fuel as [|fuel IH]; intros st tid H; cbn [advance]; [exact H|].
   destruct (t_frames (get_thread st tid)) as [|[[|h hs] err] rest]; [exact H| |].
   - apply IH. exact H.
-  - destruct h.
-    + exact H.
+  - destruct h; [exact H| | |exact H].
     + pose proof (flip_nohooks st pid err H) as F. destruct (flip st pid err) as [st1 taken]. cbn [fst] in F.
       apply IH. exact F.
     + apply IH. unfold upd_thread. cbn [procs]. apply (nohooks_upd st pid); auto. cbn [p_term p_hooks].
